@@ -214,6 +214,8 @@ def parse_raw_http(data: bytes) -> Union[HttpRequest, HttpResponse]:
 
     headers = {}
     for header in header_data.split(b"\r\n"):
+        if not header:
+            continue
         key, _, value = header.partition(b": ")
         headers[key] = value
 
